@@ -126,10 +126,11 @@ def make_classes(F, tr: Trace):
 class Instrumented:
     """Context manager: installs recording classes in tapescript.functions and wraps every
     dispatch-table entry (fetch hygiene, CALL/EVAL depth, LOOP iterations)."""
-    def __init__(self, tr: Trace, limit=None):
+    def __init__(self, tr: Trace, limit=None, factor=1):
         self.F = impl.functions()
         self.tr = tr
         self.limit = limit
+        self.factor = factor
     def __enter__(self):
         F, tr = self.F, self.tr
         self.RecStack, self.RecTape, self.RecDict = make_classes(F, tr)
@@ -141,12 +142,13 @@ class Instrumented:
         orig_run_tape = F.run_tape
         pend = [False]
         import time as _time
-        case_deadline = _time.time() + 6.0
+        case_deadline = _time.time() + 6.0 * self.factor
+        budget = 30_000 * self.factor
         def run_tape(tape, stack, cache, additional_flags={}):
             level[0] += 1
             tr.run_tapes += 1
-            if tr.run_tapes > 30_000 or (tr.run_tapes & 255 == 0 and _time.time() > case_deadline):
-                tr.run_tapes = 30_001
+            if tr.run_tapes > budget or (tr.run_tapes & 255 == 0 and _time.time() > case_deadline):
+                tr.run_tapes = budget + 1
                 level[0] -= 1
                 from .vmrun import HarnessAbort
                 raise HarnessAbort('run_tape budget')
@@ -223,10 +225,17 @@ class Instrumented:
 
 def run_instrumented(cfg, cache_in: dict, script: bytes, env):
     """run_script's composition through the public API with recording objects.
-    Returns (status, tape, stack, cache, trace)."""
+    Returns (status, tape, stack, cache, trace). A case that exhausts the run_tape budget is run once more with 15x the budget."""
+    out = _run_instrumented(cfg, cache_in, script, env, 1)
+    if out[0] == 'ERR:HarnessAbort':
+        out = _run_instrumented(cfg, cache_in, script, env, 15)
+    return out
+
+
+def _run_instrumented(cfg, cache_in: dict, script: bytes, env, factor):
     tr = Trace()
     F = env.F
-    with Instrumented(tr) as ins:
+    with Instrumented(tr, factor=factor) as ins:
         tape = ins.RecTape(script, callstack_limit=cfg.call_limit)
         stack = ins.RecStack(max_items=cfg.max_items, max_item_size=cfg.max_item_size)
         stack.deque.main = True
